@@ -161,7 +161,8 @@ def run(ctx):
                     kind = "pointed-name"
             kinds.add(kind)
             ctx.check(kind is not None, "C16.4", "wire:len-step:%s" % kind, "len += %s" % kind, "len updated as %s" % A.show(e)[:120], wd.loc(d[0]))
-    ctx.check(kinds == {"length-octet", "label", "pointed-name"}, "C16.4", "wire:len-steps", "exactly the three increments", "len increments: %s" % sorted(map(str, kinds)), wd.loc())
+    # "pointed-name" exists only while pointers are followed by a recursive call; a loop that reads the pointed-to labels itself needs none
+    ctx.check({"length-octet", "label"} <= kinds <= {"length-octet", "label", "pointed-name"}, "C16.4", "wire:len-steps", "len grows by 1 per length octet and by the label length per label (plus the pointed-to name's len if it is decoded by a nested call)", "len increments: %s" % sorted(map(str, kinds)), wd.loc())
     for b, i, st in A.aggregates(wd, DN):
         ok, _ = wc.guarded(b, A.cmp_fact({"Le"}, lambda e: True, is_const("DOMAINNAME_MAX_LEN")))
         e = wr.rvalue(st["rv"], (b, i))
